@@ -426,7 +426,7 @@ struct MaterialData {
 
     #[br(count = file_header.additional_data_size)]
     #[br(pad_size_to = 4)]
-    #[br(map = |x: Vec<u8>| u32::from_le_bytes(x[0..4].try_into().unwrap()))]
+    #[br(try_map = |x: Vec<u8>| x.get(0..4).and_then(|flags| flags.try_into().ok()).map(u32::from_le_bytes).ok_or("additional data is shorter than the table flags"))]
     table_flags: u32,
 
     #[br(calc = (table_flags & 0x4) != 0)]
@@ -499,11 +499,12 @@ impl Material {
         for _ in 0..mat_data.file_header.texture_count {
             let mut string = String::new();
 
-            let mut next_char = mat_data.strings[offset] as char;
+            // a string that runs past the end of the string table means the file is damaged
+            let mut next_char = *mat_data.strings.get(offset)? as char;
             while next_char != '\0' {
                 string.push(next_char);
                 offset += 1;
-                next_char = mat_data.strings[offset] as char;
+                next_char = *mat_data.strings.get(offset)? as char;
             }
 
             texture_paths.push(string);
@@ -516,11 +517,11 @@ impl Material {
 
         offset = mat_data.file_header.shader_package_name_offset as usize;
 
-        let mut next_char = mat_data.strings[offset] as char;
+        let mut next_char = *mat_data.strings.get(offset)? as char;
         while next_char != '\0' {
             shader_package_name.push(next_char);
             offset += 1;
-            next_char = mat_data.strings[offset] as char;
+            next_char = *mat_data.strings.get(offset)? as char;
         }
 
         let mut constants = Vec::new();
@@ -530,7 +531,10 @@ impl Material {
             // TODO: use mem::size_of
             let num_floats = constant.value_size / 4;
             for i in 0..num_floats as usize {
-                values[i] = mat_data.shader_values[(constant.value_offset as usize / 4) + i];
+                // a constant has at most four values, all of which must lie inside the value list
+                *values.get_mut(i)? = *mat_data
+                    .shader_values
+                    .get((constant.value_offset as usize / 4) + i)?;
             }
 
             constants.push(Constant {
